@@ -749,7 +749,7 @@ impl Engine for C11 {
             (Rng::stream(seed, self.tag(), i), None)
         };
         let narenas = r.usize(1, 2);
-        let caps: Vec<usize> = (0..narenas).map(|_| r.pick(&[1usize, 64 << 10, 128 << 10, 256 << 10, 1 << 20])).collect();
+        let caps: Vec<usize> = (0..narenas).map(|_| r.pick(&[1usize, 64 << 10, 128 << 10, 256 << 10, 1 << 20, 65_537, 100 << 10, 200_000, 1_000_001])).collect();
         let maxcap = *caps.iter().max().unwrap();
         let nops = r.usize(1, if tier == Tier::Thorough { 200 } else { 120 });
         let with_scratch = r.chance(40);
@@ -870,7 +870,9 @@ impl Engine for C11 {
                         break;
                     }
                     let (base, size) = fake_libc::with_vm(|vm| (vm.regions[n - 1].base, vm.regions[n - 1].size)).unwrap();
-                    if size < want || size % CHUNK != 0 {
+                    // (how far the reservation is rounded up is the arena's business; the model takes the
+                    // real reservation as the bound every block must respect)
+                    if size < want {
                         verdict = bad("reserve", format!("arena {k}: reservation of {size} bytes for capacity {want}"));
                         break;
                     }
